@@ -333,7 +333,7 @@ def value_set(facts, var):
 
 # ----------------------------------------------------------------------------- lifting closure bodies into the creator's terms
 _OPT_COMB = re.compile(r"Option::<T>::(is_some_and|is_none_or|map|map_or|map_or_else|and_then|filter|inspect|take_if)$")
-_ITER_COMB = re.compile(r"(Iterator::(map|filter|any|all|find|position|for_each|try_for_each|filter_map|find_map|take_while|skip_while|flat_map|fold|try_fold|inspect|rposition)|<impl \[T\]>::(sort_by_key|sort_by_cached_key|retain)|Vec::<T, A>::retain)$")
+_ITER_COMB = re.compile(r"(Iterator>?::(map|filter|any|all|find|position|for_each|try_for_each|filter_map|find_map|take_while|skip_while|flat_map|fold|try_fold|inspect|rposition)|<impl \[T\]>::(sort_by_key|sort_by_cached_key|retain)|Vec::<T, A>::retain)$")
 
 
 class Lifted:
